@@ -149,22 +149,36 @@ func c20Helpers() []c20Helper {
 	on := func(name string, f func(ap.Item, *string) error) {
 		hs = append(hs, c20Helper{name, func(it ap.Item, cb *string) (any, error) { return nil, f(it, cb) }})
 	}
-	on("OnLink", func(it ap.Item, cb *string) error { return ap.OnLink(it, func(p *ap.Link) error { cbNote(cb, p); return nil }) })
-	on("OnObject", func(it ap.Item, cb *string) error { return ap.OnObject(it, func(p *ap.Object) error { cbNote(cb, p); return nil }) })
-	on("OnActivity", func(it ap.Item, cb *string) error { return ap.OnActivity(it, func(p *ap.Activity) error { cbNote(cb, p); return nil }) })
+	on("OnLink", func(it ap.Item, cb *string) error {
+		return ap.OnLink(it, func(p *ap.Link) error { cbNote(cb, p); return nil })
+	})
+	on("OnObject", func(it ap.Item, cb *string) error {
+		return ap.OnObject(it, func(p *ap.Object) error { cbNote(cb, p); return nil })
+	})
+	on("OnActivity", func(it ap.Item, cb *string) error {
+		return ap.OnActivity(it, func(p *ap.Activity) error { cbNote(cb, p); return nil })
+	})
 	on("OnIntransitiveActivity", func(it ap.Item, cb *string) error {
 		return ap.OnIntransitiveActivity(it, func(p *ap.IntransitiveActivity) error { cbNote(cb, p); return nil })
 	})
-	on("OnQuestion", func(it ap.Item, cb *string) error { return ap.OnQuestion(it, func(p *ap.Question) error { cbNote(cb, p); return nil }) })
-	on("OnActor", func(it ap.Item, cb *string) error { return ap.OnActor(it, func(p *ap.Actor) error { cbNote(cb, p); return nil }) })
+	on("OnQuestion", func(it ap.Item, cb *string) error {
+		return ap.OnQuestion(it, func(p *ap.Question) error { cbNote(cb, p); return nil })
+	})
+	on("OnActor", func(it ap.Item, cb *string) error {
+		return ap.OnActor(it, func(p *ap.Actor) error { cbNote(cb, p); return nil })
+	})
 	on("OnItemCollection", func(it ap.Item, cb *string) error {
 		return ap.OnItemCollection(it, func(p *ap.ItemCollection) error { cbNote(cb, p); return nil })
 	})
-	on("OnIRIs", func(it ap.Item, cb *string) error { return ap.OnIRIs(it, func(p *ap.IRIs) error { cbNote(cb, p); return nil }) })
+	on("OnIRIs", func(it ap.Item, cb *string) error {
+		return ap.OnIRIs(it, func(p *ap.IRIs) error { cbNote(cb, p); return nil })
+	})
 	on("OnCollectionIntf", func(it ap.Item, cb *string) error {
 		return ap.OnCollectionIntf(it, func(p ap.CollectionInterface) error { cbNote(cb, p); return nil })
 	})
-	on("OnCollection", func(it ap.Item, cb *string) error { return ap.OnCollection(it, func(p *ap.Collection) error { cbNote(cb, p); return nil }) })
+	on("OnCollection", func(it ap.Item, cb *string) error {
+		return ap.OnCollection(it, func(p *ap.Collection) error { cbNote(cb, p); return nil })
+	})
 	on("OnCollectionPage", func(it ap.Item, cb *string) error {
 		return ap.OnCollectionPage(it, func(p *ap.CollectionPage) error { cbNote(cb, p); return nil })
 	})
@@ -174,8 +188,12 @@ func c20Helpers() []c20Helper {
 	on("OnOrderedCollectionPage", func(it ap.Item, cb *string) error {
 		return ap.OnOrderedCollectionPage(it, func(p *ap.OrderedCollectionPage) error { cbNote(cb, p); return nil })
 	})
-	on("OnPlace", func(it ap.Item, cb *string) error { return ap.OnPlace(it, func(p *ap.Place) error { cbNote(cb, p); return nil }) })
-	on("OnProfile", func(it ap.Item, cb *string) error { return ap.OnProfile(it, func(p *ap.Profile) error { cbNote(cb, p); return nil }) })
+	on("OnPlace", func(it ap.Item, cb *string) error {
+		return ap.OnPlace(it, func(p *ap.Place) error { cbNote(cb, p); return nil })
+	})
+	on("OnProfile", func(it ap.Item, cb *string) error {
+		return ap.OnProfile(it, func(p *ap.Profile) error { cbNote(cb, p); return nil })
+	})
 	on("OnRelationship", func(it ap.Item, cb *string) error {
 		return ap.OnRelationship(it, func(p *ap.Relationship) error { cbNote(cb, p); return nil })
 	})
